@@ -39,7 +39,8 @@ RULE = ("fun stream: vectors of 12-16 components (boundary type x lower/upper fi
         "function+gradient in one call, function then gradient from the cached function values, or gradient only; optionally "
         "a VariableScaler (power-of-two scales, dyadic offsets) or a dict round trip of the validated configuration; in 30% "
         "the gradient section is a GradientConfig instance the caller already used for another EnOptConfig with other bound "
-        "ranges / another scaler (own magnitudes required, instance unchanged); masks written as booleans or 0/1 integers; "
+        "ranges / another scaler (own magnitudes required, instance unchanged), in 25% it is derived with model_copy(update=...) "
+        "from the gradient section of another validated EnOptConfig; masks written as booleans or 0/1 integers; "
         "relative perturbations with an infinite bound -- on a free or on a FIXED (masked-out) variable -- and arrays of a "
         "wrong size (rejected). Non-trivial = some component's "
         "pre-boundary value lies outside its bounds (fun) / some row sent to the evaluator differs from the point (eval; "
@@ -225,6 +226,10 @@ def _eval_case(rng, full=False, force_reject=False, force_shape=False, force_sca
             # EnOptConfig with other bound ranges (and, sometimes, another scaler); each configuration must get the
             # magnitudes of its OWN ranges and the caller's instance must stay as written
             "shared_gradient": rng.random() < 0.3,
+            # the gradient section is DERIVED from the section of another, already validated EnOptConfig with
+            # model_copy(update={types, magnitudes, boundary types}) -- the normal way to vary an immutable section; the new
+            # configuration must follow the formula for ITS settings (takes precedence over shared_gradient)
+            "derived_gradient": rng.random() < 0.25,
             "weights": [rng.randint(1, 4) / 4 for _ in range(R)]}
 
 
@@ -338,7 +343,22 @@ def _run_eval(case):
                                                                  np.array(case["scaler"]["offsets"], dtype=np.float64)))
     caller_kept = True
     shared = None
-    if case.get("shared_gradient"):
+    if case.get("derived_gradient"):
+        base_dict = {**cfg_dict, "gradient": {k: v for k, v in cfg_dict["gradient"].items()
+                                               if k in ("number_of_perturbations", "samplers")}}
+        base_dict["gradient"]["perturbation_magnitudes"] = 0.0625
+        with warnings.catch_warnings():
+            warnings.simplefilter("ignore")
+            try:
+                base = EnOptConfig.model_validate(base_dict, context=transforms)
+            except ValueError as e:
+                return {"rejected": True, "message": str(e)[:200].replace("\n", " | ")}
+        derived = base.gradient.model_copy(update={
+            "perturbation_magnitudes": np.array(case["ms"], dtype=np.float64),
+            "perturbation_types": np.array(case["pts"], dtype=np.ubyte),
+            "boundary_types": np.array(case["bts"], dtype=np.ubyte)})
+        cfg_dict = {**cfg_dict, "gradient": derived}
+    elif case.get("shared_gradient"):
         from ropt.config.enopt import GradientConfig
         with warnings.catch_warnings():
             warnings.simplefilter("ignore")
@@ -646,7 +666,8 @@ def features(case, obs):
             "calls": len(case["calls"]), "first_mode": ["f+g", "f,g(cached)", "g-only"][case["calls"][0]["mode"]],
             "revisit": any(case["calls"][j]["x"] == case["calls"][i]["x"] for j in range(len(case["calls"])) for i in range(j)),
             "scaler": case.get("scaler") is not None,
-            "revalidate": bool(case.get("revalidate")), "shared_gradient_instance": bool(case.get("shared_gradient")),
+            "revalidate": bool(case.get("revalidate")), "shared_gradient_instance": bool(case.get("shared_gradient")) and not case.get("derived_gradient"),
+            "derived_gradient_section": bool(case.get("derived_gradient")),
             "mask_written_as": case.get("mask_repr", "bool") if case["mask"] is not None else "-", "x_is_initial": case["calls"][0]["x"] == case["x"],
             "nonpositive_magnitude": any(m <= 0 for m in case["ms"]),
             "mixed_none": NONE in case["bts"] and len(set(case["bts"])) > 1,
